@@ -511,8 +511,8 @@ PROPS['C03'] = {
     'technique': 'explicit-state BFS to fixpoint over pools of live containers: every ownership-moving operation from every reachable pool state, replayed on the real code, against a Vec-of-ids reference model and a drop ledger',
     'parts': [own_part()],
     'rule': ("system = a pool of live containers holding identity-carrying elements: GenericArray, its by-value iterator (with origin and position), native array, tuple, Vec, Box<[T]>, Box<GenericArray>, vec::IntoIter (boxed into_iter), nested GenericArray, and elements "
-             "handed back to the caller. Alphabet (69 operations, each consuming and producing pool members, so outputs of one are inputs of the next): generate (stack, boxed, nested), drop, into_iter, next, next_back, nth(k)/nth_back(k) for every k in 0..=len+1, "
-             "iterator clone, fold/rfold (dropping), count, last, collect into array / Box / Vec, append, prepend, pop_back, pop_front, split at every K, concat, remove(i)/swap_remove(i) for every i, map (pass-through, replacing, & and &mut forms), zip (keep left, keep right, "
+             "handed back to the caller. Alphabet (70 operations, each consuming and producing pool members, so outputs of one are inputs of the next): generate (stack, boxed, nested), drop, into_iter, next, next_back, nth(k)/nth_back(k) for every k in 0..=len+1, "
+             "iterator clone, clone_from into another live iterator at any position, fold/rfold (dropping), count, last, collect into array / Box / Vec, append, prepend, pop_back, pop_front, split at every K, concat, remove(i)/swap_remove(i) for every i, map (pass-through, replacing, & and &mut forms), zip (keep left, keep right, "
              "&x&, owned x &, &mut x owned, and six mixed-type forms whose other operand is a plain u32 array: &, &mut, owned, as left operand, boxed), fold, Clone, flatten, unflatten (every divisor), to/from native array, to/from tuple, to Vec / Box<[T]> and back (right length and both neighbouring wrong lengths), Box::new / unbox, into_vec, into_boxed_slice, "
              "try_from_vec, try_from_boxed_slice, boxed into_iter + next/next_back, boxed map/zip/fold/clone. Bounds (Lmax, containers, live elements): quick (3,3,3) and (5,2,5) for 4-byte tracked, (3,2,4) zero-sized tracked, (2,2,3) 24-byte tracked; "
              "thorough (5,3,6), (4,3,5) zero-sized, (3,3,4) 24-byte and plain u32, in the release build. State key = sorted multiset of (kind, type-level length, outer length, element count, iterator front/back/origin). After every transition: each container's contents equal "
@@ -544,7 +544,7 @@ PROPS['C15']['sources'] = ['e_alloc/src/main.rs']
 PROPS['C16']['sources'] = ['e_alloc/src/main.rs']
 PROPS['C01']['level_text'] = "Every (element layout, length) pair of a stated finite family is evaluated by rustc's own layout computation on the real type definitions and compared with [T; N]; complete for every N <= 1024 (every digit pattern of the storage recursion to depth 10) and a lattice over every binary depth to 62; real values are built and their element addresses walked for small and boundary lengths. Exploration is the right level: the statement quantifies over inputs (layouts x lengths), not histories."
 PROPS['C02']['level_text'] = 'Every (length, source length, entry point, element type) of a stated lattice, and the full matrix of shared and mutable views, is executed on the real code with pointer/length oracles on canaried buffers; complete in the source length around N for N <= 13. The quantifier is over inputs, so bounded exhaustive exploration is the matching level.'
-PROPS['C03']['level_text'] = 'Explicit-state model checking: breadth-first search to fixpoint over pools of live containers, applying every one of 69 ownership-moving operations from every reachable state on the real code (stateless replay of histories, canonical state key with a soundness argument), each step compared with a Vec-of-ids reference model and a drop ledger, plus quiescence from every state. The property quantifies over all finite histories; within the stated caps on length, pool size and live elements every history is covered because BFS closes the state space.'
+PROPS['C03']['level_text'] = 'Explicit-state model checking: breadth-first search to fixpoint over pools of live containers, applying every one of 70 ownership-moving operations from every reachable state on the real code (stateless replay of histories, canonical state key with a soundness argument), each step compared with a Vec-of-ids reference model and a drop ledger, plus quiescence from every state. The property quantifies over all finite histories; within the stated caps on length, pool size and live elements every history is covered because BFS closes the state space.'
 PROPS['C04']['level_text'] = "Fault enumeration: for every callback-bearing operation, receiver form, length and element-type combination of a stated lattice, every call into caller code is made to panic in its own execution, and a drop ledger decides exactly-once. One fault per execution is the property's quantifier (a second panic while unwinding aborts by language rule)."
 PROPS['C05']['level_text'] = "Fault enumeration: for every internally-dropping operation from every reachable iterator position (and the builder/consumer/collecting/deserialising error paths), every choice of the single element whose destructor panics is executed; the run continues after the caught panic and the ledger decides 'never twice, never observed after drop'."
 PROPS['C06']['level_text'] = 'Explicit-state model checking of the real iterator against two reference queues: BFS over (origin, front, len) states with every operation and argument from every state, consuming operations evaluated from every state, closed-form and stateless cross-checks as vacuity guards. The property quantifies over all interleavings; for each listed K the whole state graph is covered.'
